@@ -105,7 +105,63 @@ class PolarsJointUniqueness(Contract):
         out = {"is_a_result": isinstance(result, Obj) and result.cls is CoreCheckResult, "verdict": Iff(passed, want)}
         if passed is not True:
             out["reason"] = Implies(Not(passed), result.attrs["reason_code"] is SchemaErrorReason.DUPLICATES)
+        if passed is False:
+            # the failing result goes to the lazy report (PolarsSchemaBackend.failure_cases_metadata, which refuses a LazyFrame with
+            # NotImplementedError and numbers the rows through check_output) and to drop_invalid_rows (row-aligned check_output):
+            fc = result.attrs.get("failure_cases")
+            out["failure_cases_are_materialised"] = isinstance(fc, PP.FrameP) and fc.kind == "DataFrame"
+            co = result.attrs.get("check_output")
+            ok = isinstance(co, PP.FrameP) and PP.CHECK_OUTPUT_KEY in co.cols
+            out["reports_a_row_aligned_check_output"] = ok
+            if ok:
+                k, m = z3.Int(cur().fresh_name("k")), z3.Int(cur().fresh_name("m"))
+                groups = [[lf.cols[c] for c in g if c in lf.cols] for g in groups_of(u)]
+                g0 = groups[0]  # (the first violated group is the one reported; with one group it is that group)
+                if len(groups) == 1:
+                    same = [z3.Or(z3.And(c.null(k), c.null(m)), z3.And(z3.Not(c.null(k)), z3.Not(c.null(m)), core.as_z3_bool(py_eq(c.at(k), c.at(m))))) for c in g0]
+                    dup = z3.Exists([m], z3.And(lf.sel(m), m != k, *same))
+                    out["check_output_false_exactly_on_duplicated_rows"] = SBool(z3.Implies(lf.sel(k), core.as_z3_bool(co.cols[PP.CHECK_OUTPUT_KEY].at(k)) == z3.Not(dup)))
         return out
+
+    def concretize(self, rec):
+        def thunk():
+            import warnings
+
+            import polars as pl
+            import pandera as pa
+            import pandera.polars as pp
+
+            warnings.simplefilter("ignore")
+            obs, bad = {}, False
+            schema = pp.DataFrameSchema({"a": pp.Column(int), "b": pp.Column(int)}, unique=["a", "b"])
+            for mk in (pl.DataFrame, pl.LazyFrame):
+                for lazy in (False, True):
+                    from pandera.config import ValidationDepth, config_context
+
+                    with config_context(validation_depth=ValidationDepth.SCHEMA_AND_DATA):
+                        try:
+                            schema.validate(mk({"a": [1, 1, 2], "b": [5, 5, 5]}), lazy=lazy)
+                            got = "accepted"
+                        except (pa.errors.SchemaError, pa.errors.SchemaErrors) as e:
+                            got = type(e).__name__
+                        except Exception as e:  # noqa: BLE001
+                            got = "leaked " + type(e).__name__
+                    want = "SchemaErrors" if lazy else "SchemaError"
+                    if got != want:
+                        bad = True
+                        obs[f"{mk.__name__}, lazy={lazy}: rows (1,5) twice under unique=['a','b']"] = f"{got}, expected {want}"
+            dropping = pp.DataFrameSchema({"a": pp.Column(int)}, unique=["a"], drop_invalid_rows=True)
+            try:
+                out = dropping.validate(pl.DataFrame({"a": [1, 1, 2]}), lazy=True)
+                if out["a"].to_list() != [2]:
+                    bad = True
+                    obs["drop_invalid_rows with unique=['a'] on [1,1,2]"] = f"returned {out['a'].to_list()}, expected [2]"
+            except Exception as e:  # noqa: BLE001
+                bad = True
+                obs["drop_invalid_rows with unique=['a'] on [1,1,2]"] = "raised " + type(e).__name__
+            return bad, obs or "joint uniqueness violations are reported through SchemaError / SchemaErrors"
+
+        return thunk
 
 
 CONTRACTS = [PandasJointUniqueness, PolarsJointUniqueness]
